@@ -1,6 +1,8 @@
 package checks
 
 import (
+	"crypto/sha256"
+	"encoding/hex"
 	"strconv"
 	"strings"
 
@@ -84,7 +86,6 @@ func (r *Runner) ensureTemplateSlices(i int, t SetSpec) map[int][]string {
 	if len(r.Sc.Tmpls) == 0 {
 		return names
 	}
-	ti := mod(i, len(r.Sc.Tmpls))
 	r.W.ActAs("user", func(c client.Client) {
 		for pi, ph := range t.Phases {
 			if !ph.Sliced || len(ph.Objs) == 0 {
@@ -97,7 +98,6 @@ func (r *Runner) ensureTemplateSlices(i int, t SetSpec) map[int][]string {
 				}
 				sl := &unstructured.Unstructured{Object: map[string]any{}}
 				sl.SetGroupVersionKind(corev1alpha1.GroupVersion.WithKind(setKind(DepCluster, "ObjectSlice")))
-				sl.SetName(DepName + "-t" + strconv.Itoa(ti) + "-" + ph.Name + "-slice" + strconv.Itoa(si))
 				sl.SetNamespace(depNS())
 				var objs []any
 				for _, o := range part {
@@ -106,6 +106,10 @@ func (r *Runner) ensureTemplateSlices(i int, t SetSpec) map[int][]string {
 					objs = append(objs, m)
 				}
 				sl.Object["objects"] = objs
+				// named by content, as the package controller names slices: two templates with the same content are the same
+				// template in the sliced variant too
+				sum := sha256.Sum256([]byte(mustJSON(objs)))
+				sl.SetName(DepName + "-t" + hex.EncodeToString(sum[:4]) + "-slice" + strconv.Itoa(si))
 				_ = c.Create(r.W.Ctx, sl) // AlreadyExists: the template was used before
 				names[pi] = append(names[pi], sl.GetName())
 				r.Labels["deployment-template-with-sliced-phase"] = true
